@@ -146,8 +146,14 @@ def marker_setup(kind, flavor, mode, x, Q2, MP, grid, degree, is_log, process="N
 def rand_grid(r, xmin=None):
     n = r.choice([6, 8, 11, 15])
     xmin = xmin or float(r.choice([1e-3, 1e-2, 0.05]))
-    g = cards.default_grid(n, xmin) if r.random() < 0.6 else cards.mixed_grid(n // 2, n - n // 2, xmin, float(r.choice([0.1, 0.3])))
-    return [float(v) for v in g]
+    if r.random() < 0.6:
+        g = cards.default_grid(n, xmin)
+    else:
+        xmid = max(float(r.choice([0.1, 0.3])), 2.5 * xmin)
+        g = cards.mixed_grid(n // 2, n - n // 2, xmin, xmid)
+    g = [float(v) for v in g]
+    assert all(a < b for a, b in zip(g[:-1], g[1:])), g
+    return g
 
 
 def rand_point(r, grid):
